@@ -1,0 +1,9 @@
+//go:build !verif
+
+package config
+
+import "time"
+
+func verifNetTimeout() time.Duration { return 0 }
+func verifHeartbeat() time.Duration  { return 0 }
+func verifHlsFragment() int          { return 0 }
